@@ -206,5 +206,20 @@ def cellStepNd (kernel : List α → List (List α) → List α → KRes α) (nP
   let h3 ← writeOutputs h1 outputs i rd.inputLen 0 r.outputs
   writeView h3 sv r.states
 
+/-- the goroutines of cells `i, i+1, …` (`n` of them) executed one after the other (C05 is about why the order does
+not matter) -/
+def runCellsNd (kernel : List α → List (List α) → List α → KRes α) (nParams nI : Nat)
+    (parameters inputs states outputs : Arr) (rd : RunDims) : Nat → Int → Heap α → R (Heap α)
+  | 0, _, h => .ok h
+  | n + 1, i, h => do
+    let h1 ← cellStepNd kernel nParams nI h parameters inputs states outputs rd i
+    runCellsNd kernel nParams nI parameters inputs states outputs rd n (i + 1) h1
+
+/-- `Run(inputs, states, outputs)`: the preamble, then one goroutine per cell `0 … numCells-1` -/
+def runNd (kernel : List α → List (List α) → List α → KRes α) (nParams nI : Nat)
+    (h : Heap α) (parameters inputs states outputs : Arr) : R (Heap α) := do
+  let rd ← runDims inputs states outputs
+  runCellsNd kernel nParams nI parameters inputs states outputs rd rd.numCells.toNat 0 h
+
 end
 end OW.Sim.WrapperNd
